@@ -87,7 +87,7 @@ DICT = {
            ' begin="1.0001s" end="1.0004s"', ' begin="1.0006s" end="1.0012s"', ' dur="0.0007s"', '<set tts:color="red" dur="1s"/>', ' end="0.0003s"', ' tts:display="block"', ' tts:textAlign="justify"', ' tts:writingMode="x"',
            ' begin="1f" ttp:frameRate="0"', ' tts:textShadow="1px 1px"', ' tts:fontFamily="X"', ' tts:origin="1px"', ' tts:padding="1px 2px 3px 4px 5px"'],
 }
-BOUNDARY = ["0", "-1", "99", "100000000000000000000", "999", "00", "1e5", ""]
+BOUNDARY = ["0", "-1", "99", "100000000000000000000", "100000000000000000001", "123456789012345678", "999", "00", "1e5", ""]
 
 
 # ------------------------------------------------------------------------------------------------ mutation
@@ -510,6 +510,10 @@ CATALOG = [
   ("imsc", (TT % ("", "<body begin=\"-1s\" end=\"99:99:99\" dur=\"1h\"><div begin=\"10s\"><p end=\"5s\">a</p></div></body>")).encode()),
   # intervals shorter than a millisecond whose ends round to different milliseconds (both rounding directions)
   ("imsc", (TT % ("", "<body><div><p begin=\"1.0006s\" end=\"1.0012s\">a</p><p begin=\"2.0004s\" end=\"2.0006s\">b</p><p begin=\"3.0009s\" end=\"3.0011s\">c</p><p begin=\"4s\">d</p></div></body>")).encode()),
+  # offsets beyond 2^53 ms (float seconds no longer separate begin and end), bounded and unbounded cues
+  ("imsc", (TT % ("", "<body begin=\"100000000000000000000:00:01\"><div><p dur=\"2s\">a</p><p begin=\"3s\">b</p></div></body>")).encode()),
+  ("imsc", (TT % ("", "<body begin=\"100000000000000000001:00:01\"><div><p dur=\"2s\">a</p><p begin=\"3s\">b</p></div></body>")).encode()),
+  ("imsc", (TT % ("", "<body begin=\"123456789012345678:00:01\"><div><p begin=\"1s\">b</p></div></body>")).encode()),
   # timeContainer on the elements whose implicit duration is indefinite (region, br, set), with children
   ("imsc", (TT % ("", "<head><layout><region xml:id=\"r\" timeContainer=\"seq\"><set tts:backgroundColor=\"red\" dur=\"1s\"/><set tts:backgroundColor=\"blue\" dur=\"1s\"/></region></layout></head><body region=\"r\"><div><p end=\"3s\">a<br timeContainer=\"seq\"><set tts:color=\"red\" dur=\"1s\"/></br>b<set timeContainer=\"seq\" tts:color=\"red\"><metadata/></set></p></div></body>")).encode()),
   ("imsc", (TT % ("", "<head><layout><region xml:id=\"r\" timeContainer=\"seq\" begin=\"1s\"><style tts:color=\"red\"/><set tts:opacity=\"0\" end=\"1s\"/></region></layout></head><body timeContainer=\"seq\"><div region=\"r\" timeContainer=\"seq\"><p>a<br/>b</p><p dur=\"1s\">c</p></div></body>")).encode()),
